@@ -32,7 +32,7 @@ func scalarName(t d.FieldDescriptorProto_Type) string {
 	return strings.Title(strings.ToLower(strings.TrimPrefix(t.String(), "TYPE_")))
 }
 
-var allFamilies = []string{"rt", "from", "echo", "refresh", "schema"}
+var allFamilies = []string{"rt", "from", "echo", "refresh", "schema", "corrupt"}
 
 func programs() []*Program {
 	var ps []*Program
